@@ -17,6 +17,7 @@ def value_corpus(F, tier, name):
     recs += gen.g_int_ties(F, rng, 40 if q else 800)
     recs += gen.g_carry(F, rng, tier)
     recs += gen.g_grid(F, rng, tier)
+    recs += gen.g_exact_products(F, rng, tier)
     recs += gen.g_extremes(F, rng, big=20000 if q else 1000000)
     recs += gen.g_runs(F, rng, 80 if q else 3000)
     return gen.normalise(gen.dedup(recs))
@@ -51,7 +52,8 @@ def c01(tier):
         rule="f64 inputs from families G1 (plain), G2 (midpoint-derived variants for every/selected exponent field), "
              "G4 (seams), G5 (extremes), G6 (run-structured), G8 (exact <= 19-digit ties, both parities), G9 (low-decade "
              "midpoints), G10 (integer ties + one bit), G11 (every binade beyond the range ends), G12 (every decade, 17..19-digit "
-             "truncations), G13 (carry into the next binade incl. subnormal -> normal), G14 (d x 10^q for every q); "
+             "truncations), G13 (carry into the next binade incl. subnormal -> normal), G14 (d x 10^q for every q), G15 (exact "
+             "64-bit products w x 5^q with forced low-bit patterns); "
              "distinct = distinct (int,frac,exp) triples; "
              "every record is adjudicated by TLC with IEEE!Judge",
         level_note="TLC evaluates the declarative rounding definition (IEEE.tla) on each (input, bits) pair observed "
@@ -825,15 +827,30 @@ def c13(tier):
             violations.append(core.write_replay("C13", {"property": "C13", "direction": "spec->impl", "backend": backend,
                                                         "history": hists[r["id"] - 1], "mismatch": r}))
         # 3. impl -> spec: histories recorded from a seeded random driver, validated by the trace specification
-        nr = 100 if q else 10000
+        nr = 100 if q else 3000
         recp = os.path.join(wd, "rec-%s.ndjson" % backend)
         core.run([os.path.join(bindir, "run_vec"), "--mode", "record", "--out", recp, "--seed", str(core.seed()),
                   "--histories", str(nr), "--ops", "60"], timeout=900)
-        res = core.tlc(os.path.join(core.SPEC, "cf", "CF_Vec.tla"), os.path.join(core.SPEC, "cf", cfcfg + ".cfg"),
-                       "C13-cf-" + backend, env={"VERIF_RECORDS": recp}, coverage=False, timeout=3000)
-        verd = {p["id"]: p for p in res.prints if isinstance(p, dict) and "id" in p}
-        if core.tlc_fatal(res) or len(verd) != nr:
-            raise core.ToolError("CF_Vec did not decide every history (%d of %d): %s" % (len(verd), nr, core.tlc_fatal(res)[:2]))
+        # TLC loads a chunk of histories at a time (a history is ~40 kB of JSON)
+        verd = {}
+        res = _Merged()
+        allrecs = core.read_ndjson(recp)
+        HCH = 500
+        for c in range(0, len(allrecs), HCH):
+            part = allrecs[c:c + HCH]
+            pp = os.path.join(wd, "rec-%s-%d.ndjson" % (backend, c // HCH))
+            core.write_ndjson(pp, part)
+            r1 = core.tlc(os.path.join(core.SPEC, "cf", "CF_Vec.tla"), os.path.join(core.SPEC, "cf", cfcfg + ".cfg"),
+                          "C13-cf-%s-%d" % (backend, c // HCH), env={"VERIF_RECORDS": pp}, coverage=False, timeout=3000)
+            v1 = {p["id"]: p for p in r1.prints if isinstance(p, dict) and "id" in p}
+            if core.tlc_fatal(r1) or len(v1) != len(part):
+                raise core.ToolError("CF_Vec did not decide every history (%d of %d): %s" % (len(v1), len(part), core.tlc_fatal(r1)[:2]))
+            verd.update(v1)
+            res.distinct += r1.distinct
+            res.generated += r1.generated
+            os.remove(pp)
+        if len(verd) != nr:
+            raise core.ToolError("CF_Vec decided %d of %d histories" % (len(verd), nr))
         recs = core.read_ndjson(recp)
         for hid, v in verd.items():
             if v["verdict"] != "ok":
@@ -1099,7 +1116,14 @@ def c16(tier):
             t = rng.choice([20, 21, 25, 30, 40])
             if len(ds) > t:
                 inputs.append(gen.mk(F.name, ds[:1], ds[1:t], e10 + len(ds) - 1, "C16:huge-sci"))
+    hists = []
+    for F in (gen.F64, gen.F32):
+        hists += gen.g_histories(F, gen.rng_for("C16hist" + F.name), tier)
+    inputs += [dict(r) for h in hists for r in h]
     inputs = gen.normalise(gen.dedup(inputs))
+    keyof = lambda r: json.dumps([r["fmt"], r["int"], r["frac"], r["exp"]])
+    idof = {keyof(r): r["id"] for r in inputs}
+    hist_ids = [[idof[keyof(gen.normalise([dict(r)])[0])] for r in h] for h in hists]
     cfgs = ["std", "std+compact"] if q else ["std", "std+compact", "std+alloc", "none"]
     nthreads = 8
     violations = []
@@ -1110,9 +1134,26 @@ def c16(tier):
         inp = os.path.join(wd, "in.ndjson")
         core.write_ndjson(inp, [{k: v for k, v in r.items() if k != "tag"} for r in inputs])
         base = os.path.join(wd, "base-%s.ndjson" % cfg.replace("+", "_"))
-        core.run([os.path.join(bindir, "run_parse"), "--in", inp, "--out", base], timeout=900)
-        baseline = [{"id": o["id"], "kind": o["out"]["kind"], "bits": o["out"]["bits"]} for o in core.read_ndjson(base)]
+        # the reference: every input in a PROCESS OF ITS OWN (no earlier call, no other thread)
+        core.run([os.path.join(bindir, "run_parse"), "--in", inp, "--out", base, "--fresh"], timeout=1800)
+        fresh = core.read_ndjson(base)
+        if len(fresh) != len(inputs) or any(o["out"]["kind"] == "died" for o in fresh):
+            raise core.ToolError("fresh-process baseline incomplete")
+        baseline = [{"id": o["id"], "kind": o["out"]["kind"], "bits": o["out"]["bits"]} for o in fresh]
         threads = []
+        # one process walking all inputs in file order (the former baseline) is just another history
+        so = os.path.join(wd, "out-inorder-%s.ndjson" % cfg.replace("+", "_"))
+        core.run([os.path.join(bindir, "run_parse"), "--in", inp, "--out", so], timeout=900)
+        threads.append({"thread": 99, "events": [{"id": o["id"], "seq": k, "shape": 0, "kind": o["out"]["kind"], "bits": o["out"]["bits"]}
+                                                 for k, o in enumerate(core.read_ndjson(so))]})
+        # histories of related inputs, back to back on one thread
+        byid = {r["id"]: r for r in inputs}
+        hi_in = os.path.join(wd, "hist-in.ndjson")
+        core.write_ndjson(hi_in, [{k: v for k, v in byid[i].items() if k != "tag"} for h in hist_ids for i in h])
+        hi_out = os.path.join(wd, "hist-out-%s.ndjson" % cfg.replace("+", "_"))
+        core.run([os.path.join(bindir, "run_parse"), "--in", hi_in, "--out", hi_out], timeout=900)
+        threads.append({"thread": 300, "events": [{"id": o["id"], "seq": k, "shape": 0, "kind": o["out"]["kind"], "bits": o["out"]["bits"]}
+                                                  for k, o in enumerate(core.read_ndjson(hi_out))]})
         # sequential thread "0": every shape on every input, after stack poisoning
         seq_events = []
         for shape in range(7):
@@ -1168,19 +1209,21 @@ def c16(tier):
         nevents += sum(len(t["events"]) for t in threads)
     cov = {
         "states": mc.distinct + tstates, "transitions": mc.generated + ttrans,
-        "traces_validated_against_impl": len(cfgs) * (2 * nthreads + 1), "evaluations": nevents,
+        "traces_validated_against_impl": len(cfgs) * (2 * nthreads + 3), "evaluations": nevents, "histories": len(hist_ids),
         "distinct_nontrivial": len(inputs) * 7,
         "rule": "MC_Calls: 3 threads x 2 inputs x every initial stack content x every interleaving, up to 2 calls per thread; the two "
                 "failure designs (shared scratch buffer, length set before the cells are written) must each violate an invariant. "
                 "CF: every input x 7 iterator shapes (slice, chain, filter, skip/step_by, VecDeque ring, hand-written iterator with "
                 "size_hint (0,None), rev.rev) after stack-poisoning calls, plus 8 concurrent threads each walking all inputs in its own "
-                "order with rotating shapes; the CF_Calls trace specification enables Return only for baseline[input]",
+                "order with rotating shapes; histories of RELATED inputs back to back on one thread (19-digit prefix / just below / "
+                "exact tie / just above a midpoint, exponent one off, other float format); the CF_Calls trace specification enables "
+                "Return only for baseline[input], and the baseline is what a FRESH PROCESS returns for that input alone",
         "samples": [parsecheck.describe(r) for r in inputs[:: max(1, len(inputs) // 5)]][:6],
         "events_per_shape": dict(shapes), "inputs": len(inputs), "threads": nthreads, "configs": cfgs,
         "mc_states": mc.distinct, "exhaustive": False,
     }
     core.write_evidence("C16", tier, "model_checking", cov, time.time() - t0, len(violations),
-                        assumptions=["baseline = sequential call with slice iterators in the same build; no timing dependence: verdicts compare bits only"])
+                        assumptions=["baseline = one fresh process per input, slice iterators, same build; no timing dependence: verdicts compare bits only"])
     core.finish("C16", violations, [])
 
 
